@@ -56,6 +56,10 @@ inductive Op where
   | mount (parent sub : Nat) (seg : Nat) (inherit : Bool) (extra : List Hid)
   /-- `r.Warmup()` -/
   | warmup (r : Nat)
+  /-- `rt.Where…(…)` on the `*route.Route` that was declared on router `r` with this version tree and
+      path (a constraint added to an existing route; routing by constraints is C01's subject, here
+      only the re-registration it triggers matters) -/
+  | whereOp (r : Nat) (ver : Option Nat) (path : Path)
   /-- `app.Use(hs...)` -/
   | ause (hs : List Hid)
   /-- `app.Group(prefix, arr[:len hs]...)` where the caller's array `arr` has capacity `cap`
@@ -95,6 +99,9 @@ structure RouterSt where
   tree : List RouteRec := []
   /-- `len(routeTree.routes) > 0`: some route was ever declared on this router -/
   hasInfo : Bool := false
+  /-- the `*route.Route` objects created on this router, each with its own `route.handlers`
+      (what `Where…` re-registers) -/
+  objs : List RouteRec := []
   deriving Repr, Inhabited
 
 /-- `route.Group` / `router.VersionGroup` / `app.Group` / `app.VersionGroup`: owner, prefix, middleware -/
@@ -130,13 +137,20 @@ def register (r : RouterSt) (rt : RouteRec) : RouterSt :=
 /-- `addRouteInternal` / `VersionRouter.addVersionRoute`: record the route info, then register at
     once when the router is already warmed up, else defer -/
 def addRoute (r : RouterSt) (rt : RouteRec) : RouterSt :=
-  let r := { r with hasInfo := true }
+  let r := { r with hasInfo := true, objs := r.objs ++ [rt] }
   if r.warmed then register r rt else { r with pending := r.pending ++ [rt] }
 
 /-- `doWarmup` (under `warmupOnce`): drain `pendingRoutes`, `RegisterRoute` each -/
 def warmup (r : RouterSt) : RouterSt :=
   if r.warmed then r
   else r.pending.foldl register { r with warmed := true, pending := [] }
+
+/-- `Route.Where…`: `wasRegistered := r.registered; r.registered = false; if wasRegistered { r.RegisterRoute() }` —
+    a route that is already in a tree is registered again, with the global middleware of *now* -/
+def reRegister (ver : Option Nat) (path : Path) (r : RouterSt) : RouterSt :=
+  match r.objs.find? (fun o => o.ver == ver && o.path == path) with
+  | some o => if r.tree.any (fun rt => rt.ver == ver && rt.path == path) then register r o else r
+  | none => r
 
 def World.addRouteOn (w : World) (r : Nat) (rt : RouteRec) : World :=
   { w with routers := modifyAt w.routers r (addRoute · rt) }
@@ -192,6 +206,7 @@ def apply (w : World) : Op → World
       | none => w
   | .mount parent sub seg inherit extra => mountOp w parent sub seg inherit extra
   | .warmup r => { w with routers := modifyAt w.routers r warmup }
+  | .whereOp r ver path => { w with routers := modifyAt w.routers r (reRegister ver path) }
   -- App.Use: a.router.Use(wrapped...)
   | .ause hs => { w with routers := modifyAt w.routers 0 fun x => { x with mw := x.mw ++ hs } }
   -- App.Group: router group without middleware + app group holding (a copy of) the variadic slice
